@@ -19,7 +19,7 @@ import math
 import random
 
 from vk.core import exc_site
-from vk.engine import parallel
+from vk.engine import hyp_search, parallel
 from vk.ref import dpt_ref as R
 from vk.strategies import dpts as D
 from xknx.dpt import DPTArray
@@ -31,7 +31,8 @@ LEVEL = "exploration"
 TECHNIQUE = "generated values (exhaustive integer ranges, boundary families, seeded random floats) vs independent exact-rational reference decoders"
 RULE = (
     "every DPTNumeric class x {all integers of the declared range when it spans <= 70000, min/max +- {0, ulp, step/2, 0.999 step, step, 2 step}, "
-    "+-2^k(+-1), +-10^k, +-inf, 1e308, random ints/floats in range, k*res +- ulp, k*res + res*{1/2, 0.999}, DPT 9 mantissa/exponent edges, binary32 edges}; "
+    "+-2^k(+-1), +-10^k, +-inf, 1e308, random ints/floats in range, k*res +- ulp, k*res + res*{1/2, 0.999}, DPT 9 mantissa/exponent edges, binary32 edges} "
+    "+ a Hypothesis pass over (class, float|int); "
     "non-trivial = within two steps of a range boundary, out of range, or not a multiple of the resolution"
 )
 ASSUMPTIONS = [
@@ -322,10 +323,32 @@ def selftest(ctx) -> None:
     R.selftest()
 
 
+def hyp_oracle(ctx, x) -> None:
+    name, v = x
+    T = D.dpt_by_name(name)
+    out = check_value(ctx, T, v)
+    ctx.case((name, type(v) is float, v), nontrivial=nontrivial(params(T), v), cls="hyp:" + out.split(":")[0])
+
+
+def hyp_strategy():
+    from hypothesis import strategies as st
+
+    names = [T.__name__ for T in numeric_classes()]
+    value = st.one_of(
+        st.floats(allow_nan=False, allow_infinity=True),
+        st.floats(allow_nan=False, min_value=-700000, max_value=700000),
+        st.integers(-(2**70), 2**70),
+        st.integers(-70000, 70000),
+    )
+    return st.tuples(st.sampled_from(names), value)
+
+
 def run(ctx) -> None:
     classes = numeric_classes()
     ctx.notes["numeric_classes"] = len(classes)
     parallel(ctx, class_worker, [(T.__name__,) for T in classes])
+    # Hypothesis pass (its own float/int edge cases; new buckets are shrunk)
+    hyp_search(ctx, hyp_strategy(), hyp_oracle, ctx.n(4000, 60000))
 
 
 def replay(ctx, case) -> None:
